@@ -437,49 +437,59 @@ pub fn expand_glob(tokens: &mut types::Tokens) {
     }
 }
 
-fn expand_one_env(sh: &Shell, token: &str) -> String {
-    // do not combine these two into one: `\{?..\}?`,
-    // otherwize `}` in `{print $NF}` would gone.
-    let re1 = Regex::new(r"^(.*?)\$([A-Za-z0-9_]+|\$|\?)(.*)$").unwrap();
-    let re2 = Regex::new(r"(.*?)\$\{([A-Za-z0-9_]+|\$|\?)\}(.*)$").unwrap();
-    if !re1.is_match(token) && !re2.is_match(token) {
-        return token.to_string();
-    }
-
-    let mut result = String::new();
-    let match_re1 = re1.is_match(token);
-    let match_re2 = re2.is_match(token);
-    if !match_re1 && !match_re2 {
-        return token.to_string();
-    }
-
-    let cap_results = if match_re1 {
-        re1.captures_iter(token)
+fn env_value(sh: &Shell, key: &str) -> String {
+    if key == "?" {
+        format!("{}", sh.previous_status)
+    } else if key == "$" {
+        unsafe { format!("{}", libc::getpid()) }
+    } else if let Ok(val) = env::var(key) {
+        val
+    } else if let Some(val) = sh.get_env(key) {
+        val
     } else {
-        re2.captures_iter(token)
-    };
+        String::new()
+    }
+}
 
-    for cap in cap_results {
-        let head = cap[1].to_string();
-        let tail = cap[3].to_string();
-        let key = cap[2].to_string();
-        if key == "?" {
-            result.push_str(format!("{}{}", head, sh.previous_status).as_str());
-        } else if key == "$" {
-            unsafe {
-                let val = libc::getpid();
-                result.push_str(format!("{}{}", head, val).as_str());
-            }
-        } else if let Ok(val) = env::var(&key) {
-            result.push_str(format!("{}{}", head, val).as_str());
-        } else if let Some(val) = sh.get_env(&key) {
-            result.push_str(format!("{}{}", head, val).as_str());
-        } else {
-            result.push_str(&head);
-        }
-        result.push_str(&tail);
+/// Replace every `$NAME`, `${NAME}`, `$?`, `$$` of the token by its value,
+/// in a single left-to-right pass: the inserted values are not scanned again.
+fn expand_envs_in_token(sh: &Shell, token: &str) -> String {
+    fn is_key_char(c: char) -> bool {
+        c.is_ascii_alphanumeric() || c == '_'
     }
 
+    let chars: Vec<char> = token.chars().collect();
+    let len = chars.len();
+    let mut result = String::new();
+    let mut i = 0;
+    while i < len {
+        if chars[i] != '$' {
+            result.push(chars[i]);
+            i += 1;
+            continue;
+        }
+
+        // `${KEY}` needs the braces around the key only;
+        // `$KEY` takes the longest name, or one of `$` and `?`.
+        let braced = i + 1 < len && chars[i + 1] == '{';
+        let start = if braced { i + 2 } else { i + 1 };
+        let mut end = start;
+        while end < len && is_key_char(chars[end]) {
+            end += 1;
+        }
+        if end == start && end < len && (chars[end] == '$' || chars[end] == '?') {
+            end += 1;
+        }
+        if end == start || (braced && (end >= len || chars[end] != '}')) {
+            result.push('$');
+            i += 1;
+            continue;
+        }
+
+        let key: String = chars[start..end].iter().collect();
+        result.push_str(&env_value(sh, &key));
+        i = if braced { end + 1 } else { end };
+    }
     result
 }
 
@@ -801,11 +811,7 @@ pub fn expand_env(sh: &Shell, tokens: &mut types::Tokens) {
             continue;
         }
 
-        let mut _token = token.clone();
-        while env_in_token(&_token) {
-            _token = expand_one_env(sh, &_token);
-        }
-        buff.push((idx, _token));
+        buff.push((idx, expand_envs_in_token(sh, token)));
         idx += 1;
     }
 
